@@ -32,6 +32,11 @@ def run(F, rep):
     rep.run(dt_tables.graph_step_table, F, rep, "C03.6")
     # the edge set equals the observed (K+1)-mers only if every observation's flanking bases reach the table: both summarizers
     rep.run(dt_filter.summarizer_tables, F, rep, "C03.9")
+    # graphs built from k-mers WITHOUT extensions: the extension bits are computed on the fly — a bit exactly when the neighbour is a key,
+    # whatever order the caller lists the keys in
+    rep.run(dt_compress.entry_points_table, F, rep, "C03.11")
     # the sharded pruning variant binary-searches the list of all observed k-mers that filter_kmers returns; that list is the concatenation
     # of the per-bucket sorted lists in bucket order, which is sorted only because bucket() is monotone in the k-mer order (first 4 bases)
     rep.run(common.run_kmer_lemmas, F, rep, {"bucket"})
+    # find_link / find_edges / the index builders see a node through its terminal k-mers: Vmer::get_kmer on views of the packed store
+    rep.run(common.run_store_kmer_lemmas, F, rep, "C03.10")
